@@ -24,6 +24,10 @@ ToPots(js) == [k \in 1..Len(js) |->
     levels |-> [j \in 1..Len(p.levels) |-> [level |-> p.levels[j].level, wager |-> p.levels[j].wager, total |-> p.levels[j].total,
                                             contributors |-> {p.levels[j].contributors[x] : x \in 1..Len(p.levels[j].contributors)}]]]]
 
+\* "pots" lines of vectors fed multiplied by K = 2^53+1 carry the outputs divided by K: the formulas of C16 are linear in
+\* the contributions, so every output must have been an exact multiple of K (the settlement is not linear: odd chips)
+IsScaled(ln) == "scaled" \in DOMAIN ln /\ ln.scaled
+Inexact(ln, prop) == IF prop \in Props /\ IsScaled(ln) /\ ~ln.exact THEN {prop \o ".hugeAmountsExact"} ELSE {}
 Check(ln) ==
   LET S == Pl(ln)
       c == Fn(ln, ln.c)
@@ -31,9 +35,9 @@ Check(ln) ==
       pots == ToPots(ln.pots)
       mp == GetPots(c, f, S)
   IN IF ln.kind = "pots"
-     THEN [bad |-> IF "C16" \in Props THEN PP!FailedC16(S, c, f, pots) ELSE {},
+     THEN [bad |-> (IF "C16" \in Props THEN PP!FailedC16(S, c, f, pots) ELSE {}) \cup Inexact(ln, "C16"),
            drift |-> mp # pots,
-           tags |-> {"pots.n" \o ToString(ln.n)} \cup (IF \E k \in 1..Len(pots) : Len(pots[k].levels) > 1 THEN {"pots.merged"} ELSE {})
+           tags |-> {"pots.n" \o ToString(ln.n)} \cup (IF IsScaled(ln) THEN {"pots.hugeAmounts"} ELSE {}) \cup (IF \E k \in 1..Len(pots) : Len(pots[k].levels) > 1 THEN {"pots.merged"} ELSE {})
                     \cup (IF Len(pots) >= 3 THEN {"pots.threeOrMore"} ELSE {})]
      ELSE LET s == Fn(ln, ln.s)
               chg == Fn(ln, ln.chg)
